@@ -23,7 +23,7 @@ CHECKS = {
     category="model_checking",
     technique="TLA+ spec Convert.tla (values of fractions, binary strings parsed in TLA+, mpf tuples, expansions, multiwords over IEEE.tla) with TLC: exhaustive toy-format model check of the oracle and transcriptions; recorded conversions validated by Trace_Convert.tla",
     text="Every float16 pattern and shaped/sampled float32/float64 patterns are pushed through each conversion route; the intermediate object is logged uninterpreted and TLC decides exact value equality and bit-identical round trip. U1 checks IEEE.tla coherence, the TLA+ binary-string parser and transcriptions of float2fraction / the mpf2multiword loop on all values of toy formats.",
-    note="Trusted: TLC, BigInt/IEEE modules (self-tested against NumPy), mpmath's _mpf_ tuples. -0 -> +0 accepted through fractions and mpf-based routes; inf/NaN through fractions unconstrained. Known findings: mpf2multiword on zero/specials, p < prec/2 and max_length=1 (not repaired).",
+    note="Trusted: TLC, BigInt/IEEE modules (self-tested against NumPy), mpmath's _mpf_ tuples. -0 -> +0 accepted through fractions and mpf-based routes; inf/NaN through fractions unconstrained.",
     design="6/C13"),
  "C15": dict(
     category="model_checking",
@@ -46,9 +46,9 @@ CHECKS = {
     design="6/C03"),
  "C04": dict(
     category="model_checking",
-    technique="TLA+ spec FAIR.tla gives the IR an exact-rational and an IEEE semantics; TLC model-checks the relop folding tables extracted live from rewrite.py (MC_Relop) and enumerates terms (FATerms); every (term, rewritten term) pair from the real rewriter is evaluated by TLC under all assignments of a small domain (Trace_Rewrite.tla)",
-    text="U1: the three relational-operator tables are extracted from the working tree into a generated TLA+ module and every folded entry is checked against every pair of values of its classes on an order-preserving abstraction of the float lattice. U2/U3: TLC enumerates all terms with <= 2 operator nodes, all comparisons between 29 sign/finiteness class representatives, one template per rule left-hand side and sampled depth-5 terms; each is built in the real package for float, float32 and float64 symbols, rewritten (alone, twice, after the numpy/cpp expansion pass; fresh and shared contexts) under a time budget, projected back to a spec term, and TLC decides EvalQ(t) = EvalQ(t') exactly and EvalF(t) ~ EvalF(t') for every assignment. The semantics is the spec's only; no Python interpreter of the IR is involved.",
-    note="Trusted: TLC, BigInt/IEEE (self-tested against NumPy incl. division and sqrt). Leniencies: exact clause only when closed arithmetic sub-terms are small dyadics; numeric literal denotes its value in the like's type; target-declined kinds not judged. Not evaluated by the spec (counted, not judged): up/downcast, lists/items, complex kinds, transcendental kinds.",
+    technique="TLA+ spec FAIR.tla gives the IR an exact semantics (rationals, complex pairs, lists) and an IEEE semantics (float16/32/64 with casts); TLC model-checks the relop folding tables extracted live from rewrite.py (MC_Relop) and enumerates terms (FATerms); every (term, rewritten term) pair from the real rewriter is evaluated by TLC under all assignments of a small domain (Trace_Rewrite.tla)",
+    text="U1: the three relational-operator tables are extracted from the working tree into a generated TLA+ module and every folded entry is checked against every pair of values of its classes on an order-preserving abstraction of the float lattice. U2/U3: TLC enumerates all terms with <= 2 operator nodes, all comparisons between 29 sign/finiteness class representatives, one template per rule left-hand side, the extended kinds of the quantifier (complex/real/imag/conjugate and arithmetic on complex terms and constants, up/downcast chains, lists/items, kinds with point rules such as log 1, hypot, is_finite) and sampled deeper terms of both families; each is built in the real package for float, float32 and float64 (complex, complex64, complex128) symbols, rewritten (alone, twice, after the numpy/cpp expansion pass; fresh and shared contexts) under a time budget, projected back to a spec term, and TLC decides EvalQ(t) = EvalQ(t') exactly and EvalF(t) ~ EvalF(t') for every assignment. The semantics is the spec's only; no Python interpreter of the IR is involved.",
+    note="Trusted: TLC, BigInt/IEEE (self-tested against NumPy incl. division and sqrt). Leniencies: exact clause only when no rounded constant fold can have happened (closed arithmetic sub-terms of t and all new literals of t' are small dyadics); t' judged with the conditional-expression reading of select; numeric literal denotes its value in the like's type; nodes whose value the semantics does not determine (irrational sqrt, libm kinds off their exact points, complex products in floating point, formats outside float16..64) make a term 'not judged' (counted). Known finding (class verified in TLA+): the deliberate rule upcast(downcast(x)) -> x.",
     design="6/C04"),
  "C14": dict(
     category="model_checking",
@@ -81,6 +81,19 @@ CHECKS = {
     text="Sum(renormalize(l)) = Sum(l) exactly, the result is decreasing and pairwise non-overlapping after <= 2 passes, add/subtract exact when not truncated, multiply/square within one ulp of the leading term: all decided by TLC on exact dyadics. U1: all lists of <= 3 patterns of a toy format through the transcriptions (interior zeros, equal magnitudes, cancellation present exhaustively). U2/U3: list shapes (length 1..6, relation of adjacent items, zero positions, signs, order, cancellation) in float16/32/64 through eager, functional (NumpyContext) and traced (graph printed for NumPy, what is emitted for JAX) variants x fast/safe x size limits.",
     note="Trusted: TLC, BigInt/IEEE. Fast variants judged only inside Fast2Sum's precondition. Known findings (not repaired): safe renormalize of unordered lists can need a third pass; multiply/square of non-normal-form operands cut by a size limit miss the bound.",
     design="6/C12"),
+
+ "C08": dict(
+    category="model_checking",
+    technique="TLA+ spec FATypes.tla (type lattice, static inference design, NumPy promotion of the emitted call forms) model-checked by TLC on all small well-typed DAGs (MC_Types); TypedTerms.tla enumerates typed terms that are replayed into the real package; Trace_Types.tla judges one event per bound variable of the instrumented emitted NumPy text",
+    text="The clause is static type == run-time dtype at every point where the emitted NumPy code binds a value, no debug-1 assertion fires, the result has the declared dtype; decided by TLC per event. U1: TypeOf (inference) vs NpResult (NumPy promotion) on all well-typed DAGs of <= 2 (thorough 3) nodes over the symbol dtypes and constant flavours: the design-level disagreements (156 of 939 (kind, type tuple) pairs) predict the classes the code shows. U2/U3: every shipped (function, signature) of the numpy target, all 4999 one-operation typed terms, sampled/all two-operation terms and random deeper terms, built in the real package, printed naturally (debug 0/1) and with every node referenced, executed on 4-6 input vectors (both operand orders for Python max/min, zeros, negatives, huge; NumPy scalars and Python numbers) with the emitted text instrumented through ast (the unmodified text must behave identically).",
+    note="Trusted: TLC, NumPy 2.x scalar promotion as observed, the ast instrumentation (cross-checked against the unmodified text). Failure classes never depend on the spec's TypeOf/NpResult tables (drift only). Not judged, counted: nodes outside WellTyped, runs where the emitted code raises, programs the package declines. Known findings (6 families, 173 narrow keys kind+operand types+clause): unsized/integer constants printed as float64/int64, Python max/min value-dependent dtype, float64 with complex64, copysign, shared reference names.",
+    design="6/C08"),
+ "C02": dict(
+    category="model_checking",
+    technique="TLA+ spec of the TRUE real values: Reals.tla (dyadic interval arithmetic over BigInt, series with explicit remainder bounds; ln 2 and pi from the enclosures proved by MC_ArgReduce) and Accuracy.tla (each clause decided exactly through the inverse relation of the function); enclosure laws and the clause frame model-checked by TLC on small scopes; TLC-enumerated boundary shapes and samples evaluated through the generated implementation; every evaluation validated by Trace_Accuracy.tla",
+    text="For asin, acos, asinh, acosh, absolute, square, hypot in float32/float64: 'within N ULP of the correctly rounded true value' is decided by TLC as t in [CellLo(Ord(w)-N), CellHi(Ord(w)+N)] with t compared through the inverse function (sin a <=> x, sinh a <=> x, cosh a - 1 <=> x - 1, a^2 <=> x^2+y^2) using rigorous enclosures at 48-160 bits; NaN exactly where undefined; exact limits; the 3-ULP rate judged by an exact binomial threshold derived in the spec. No multiprecision library produces a verdict: mpmath is used only in the machinery self-test (setup), NumPy at higher precision only to CHOOSE inputs (error-maximising screen). Inputs: uniform over bit patterns, every switch point of the real algorithms +-64 ulp, subnormals, extremes, hypot pair shapes; thorough adds a screen that is exhaustive over float32 for asin/acos/asinh/acosh whose worst candidates are all judged by TLC.",
+    note="Trusted: TLC, BigInt/IEEE/Reals modules (self-tested: mpmath at 400 bits inside every enclosure, with/without Java overrides identical, sabotaged laws caught). The statement's 'exhaustive in float32' is NOT achieved by TLC (3-7k events/s): 7e4 events quick, 1e6 thorough, sampled + boundary-directed + screened; rigorous per input. Leniencies: rounding cells closed (ties either way), sign of an exact zero free, undecided comparisons (none observed) never alarm.",
+    design="6/C02"),
 
  "C09": dict(
     category="model_checking",
